@@ -50,6 +50,10 @@ pub struct Case21 {
     /// an earlier, committed transaction sends 1 wei to the target
     #[serde(default)]
     pub pretouch: bool,
+    /// the target is already warm when the creation is processed: 1 = named in the access list (no
+    /// keys), 2 = the creator reads its balance first
+    #[serde(default)]
+    pub warm: u8,
 }
 
 fn init_code() -> Vec<u8> {
@@ -63,15 +67,26 @@ pub fn target_of(kind: Kind, pretouch: bool) -> Address {
         Kind::EofCreate => A.create2([0u8; 32], keccak256(crate::props::c26::sub_init())),
     }
 }
-fn creator_code(kind: Kind) -> Vec<u8> {
+fn creator_code(kind: Kind, prebalance: Option<Address>) -> Vec<u8> {
+    let pre = match prebalance {
+        Some(t) => Asm::new().push_addr(t).op(op::BALANCE).op(op::POP),
+        None => Asm::new(),
+    };
     let a = match kind {
-        Kind::Create => Asm::new().create(U256::ZERO, &init_code()),
-        Kind::Create2 => Asm::new().create2(U256::ZERO, &init_code(), 5),
+        Kind::Create => pre.create(U256::ZERO, &init_code()),
+        Kind::Create2 => pre.create2(U256::ZERO, &init_code(), 5),
         Kind::CreateTx | Kind::EofCreateTx => return vec![op::STOP],
         Kind::EofCreate => {
             // EOFCREATE(value 0, salt 0, no input) of the init container; the result goes to slot 0
             // (GAS does not exist in EOF code: the gas consumed is read from the transaction result)
-            let mut c = crate::props::c26::Cont::simple(vec![0x5f, 0x5f, 0x5f, 0x5f, 0xec, 0x00, 0x5f, 0x55, 0x00], 4);
+            let mut body = vec![];
+            if let Some(t) = prebalance {
+                body.push(0x73);
+                body.extend_from_slice(t.as_slice());
+                body.extend_from_slice(&[0x31, 0x50]);
+            }
+            body.extend_from_slice(&[0x5f, 0x5f, 0x5f, 0x5f, 0xec, 0x00, 0x5f, 0x55, 0x00]);
+            let mut c = crate::props::c26::Cont::simple(body, 4);
             c.containers = vec![crate::props::c26::sub_init()];
             return c.raw();
         }
@@ -84,7 +99,7 @@ pub fn tx_case(c: &Case21) -> TxCase {
     let spec = spec_from_name(&c.spec);
     let t = target_of(c.kind, c.pretouch);
     let mut w = base_world();
-    w.insert(A, PlainAcc::contract(&creator_code(c.kind)));
+    w.insert(A, PlainAcc::contract(&creator_code(c.kind, if c.warm == 2 { Some(t) } else { None })));
     let mut acc = PlainAcc::default();
     if c.code {
         acc.code = vec![0x00u8].into();
@@ -104,6 +119,9 @@ pub fn tx_case(c: &Case21) -> TxCase {
     let mut tc = TxCase::new(spec, w);
     tc.tx.gas_limit = 5_000_000;
     tc.tx.nonce = Some(c.pretouch as u64);
+    if c.warm == 1 {
+        tc.tx.access_list = vec![(t, vec![])];
+    }
     if c.kind == Kind::CreateTx {
         tc.tx.to = None;
         tc.tx.data = init_code().into();
@@ -285,8 +303,14 @@ pub fn run(ctx: &Ctx) -> i32 {
             }
             for layer in LAYERS {
                 for bits in 0..16u8 {
-                    let base = Case21 { spec: spec_name(s), kind, layer, code: bits & 1 != 0, nonce: bits & 2 != 0, storage: bits & 4 != 0, balance: bits & 8 != 0, ghost: false, pretouch: false };
+                    let base = Case21 { spec: spec_name(s), kind, layer, code: bits & 1 != 0, nonce: bits & 2 != 0, storage: bits & 4 != 0, balance: bits & 8 != 0, ghost: false, pretouch: false, warm: 0 };
                     cases.push(base.clone());
+                    if s.is_enabled_in(SpecId::BERLIN) {
+                        cases.push(Case21 { warm: 1, ..base.clone() });
+                    }
+                    if !matches!(kind, Kind::CreateTx | Kind::EofCreateTx) {
+                        cases.push(Case21 { warm: 2, ..base.clone() });
+                    }
                     let commits = matches!(layer, Layer::StateOver | Layer::StateBundleOver | Layer::CacheOver | Layer::CacheInserted);
                     if commits {
                         cases.push(Case21 { pretouch: true, ..base.clone() });
@@ -312,7 +336,7 @@ pub fn run(ctx: &Ctx) -> i32 {
                 a.evaluations += 1;
                 a.states += 1;
                 a.transitions += 1;
-                a.distinct(&(&c.spec, c.kind, c.layer, c.code, c.nonce, c.storage, c.ghost, c.pretouch, &sig));
+                a.distinct(&(&c.spec, c.kind, c.layer, c.code, c.nonce, c.storage, c.ghost, c.pretouch, c.warm, &sig));
                 a.outcome(&format!("created={sig}"));
                 if a.samples.is_empty() && c.storage && !c.code && !c.nonce {
                     a.sample(|| json!({"case": c, "created": sig}));
@@ -326,7 +350,7 @@ pub fn run(ctx: &Ctx) -> i32 {
         .collect();
     let acc = merge_all(accs);
     let meta = Meta {
-        rule: "target pre-state in {code, nonce, storage, balance}^4 x {CREATE, CREATE2, create transaction; under OSAKA also EOFCREATE and an EOF creation transaction} x 8 database layers (plain database, &mut, Box, WrapDatabaseRef, State, State with bundle tracking, CacheDB over it, storage inserted into CacheDB) x 13 specs; for the committing layers also after an earlier committed transaction sent 1 wei to the target, and for the storage-only target also with a database that keeps no account record for it; distinct = distinct (spec, kind, layer, pre-state, created?)".into(),
+        rule: "target pre-state in {code, nonce, storage, balance}^4 x {CREATE, CREATE2, create transaction; under OSAKA also EOFCREATE and an EOF creation transaction} x 8 database layers (plain database, &mut, Box, WrapDatabaseRef, State, State with bundle tracking, CacheDB over it, storage inserted into CacheDB) x 13 specs; for the committing layers also after an earlier committed transaction sent 1 wei to the target, and for the storage-only target also with a database that keeps no account record for it; every case also with the target already warm (named in the access list without keys from BERLIN; its balance read by the creator first); distinct = distinct (spec, kind, layer, pre-state, created?)".into(),
         assumptions: vec!["the plain test database implements has_storage from its own maps".into()],
         bounds: json!({"cases": cases.len()}),
         min_distinct: 500,
